@@ -740,11 +740,14 @@ func (b *bitstream) readDecimal(length uint64) (*Decimal, error) {
 	}
 
 	if length > 0 {
+		// readBigInt drops the sign of a zero magnitude; only a set sign bit makes it negative zero.
+		signByte, peekErr := b.peekAtOffset(0)
+
 		if err := b.readBigInt(length, coef); err != nil {
 			return nil, err
 		}
 
-		negZero = coef.Sign() == 0
+		negZero = coef.Sign() == 0 && peekErr == nil && signByte&0x80 != 0
 	}
 
 	return NewDecimal(coef, int32(exp), negZero), nil
